@@ -3,6 +3,7 @@ package main
 import (
 	"flag"
 	"fmt"
+	"golang.org/x/tools/go/ssa"
 	"os"
 	"sort"
 	"strings"
@@ -42,13 +43,33 @@ func main() {
 	}
 	theProgram = p
 	if *funcs {
+		callers := map[*ssa.Function]map[string]bool{}
+		for _, fn := range p.OwnFuncs {
+			for _, cl := range AllCalls(fn) {
+				if g := cl.Common().StaticCallee(); g != nil && IsOwn(g) && g != fn {
+					if callers[g] == nil {
+						callers[g] = map[string]bool{}
+					}
+					root := fn
+					for root.Parent() != nil {
+						root = root.Parent()
+					}
+					callers[g][FuncKey(root)] = true
+				}
+			}
+		}
 		for _, fn := range p.OwnFuncs {
 			if fn.Synthetic == "" {
 				var names []string
 				for _, prm := range fn.Params {
 					names = append(names, prm.Name())
 				}
-				fmt.Println(FuncKey(fn) + "\t" + sigString(fn) + "\t" + strings.Join(names, ","))
+				var cs []string
+				for k := range callers[fn] {
+					cs = append(cs, k)
+				}
+				sort.Strings(cs)
+				fmt.Println(FuncKey(fn) + "\t" + sigString(fn) + "\t" + strings.Join(names, ",") + "\t" + strings.Join(cs, ";"))
 			}
 		}
 		return
